@@ -55,7 +55,7 @@ theorem exec_quiet_logs (now : Time) (c : Call) (d : Db) (sq : Seqs) (hq : c.Qui
     split at he <;> (cases he; rfl)
 
 /-- A program without `InsertLog` leaves the `logs` table as it is. -/
-theorem run_quiet_logs {α : Type} (now : Time) (hn : String) (f : Option Fault) (p : Prog α) (hp : p.All Call.Quiet)
+theorem run_quiet_logs {α : Type} (now : Time) (hn : String) (f : Faults) (p : Prog α) (hp : p.All Call.Quiet)
     (st : RunSt) : (run now hn f p st).2.db.logs = st.db.logs := by
   have := run_rel now hn f Call.Quiet (fun x y => y.1.logs = x.1.logs) (fun _ => rfl)
     (fun _ _ _ h1 h2 => h2.trans h1)
@@ -71,7 +71,7 @@ structure Appended (now : Time) (ik ihash sv : String) (st0 st : RunSt) (log : L
   sv : log.schemaVersion = sv
   date : log.date = now
 
-theorem run_insertLog_ok (now : Time) (hn : String) (f : Option Fault) (ik ihash sv : String)
+theorem run_insertLog_ok (now : Time) (hn : String) (f : Faults) (ik ihash sv : String)
     (p : Payload) (st2 st : RunSt) (log : Log)
     (h : run now hn f (Prog.call (Call.insertLog { payload := p, ik := ik, ihash := ihash, schemaVersion := sv })
           Prog.pure) st2 = (.ok log, st)) :
@@ -93,7 +93,7 @@ theorem run_insertLog_ok (now : Time) (hn : String) (f : Option Fault) (ik ihash
           obtain ⟨_, rfl, rfl⟩ := heq
           exact ⟨⟨rfl, rfl, rfl, rfl, rfl⟩, rfl⟩
 
-theorem run_logPhase_ok (now : Time) (hn : String) (f : Option Fault) (strict : Bool) (ik ihash sv : String)
+theorem run_logPhase_ok (now : Time) (hn : String) (f : Faults) (strict : Bool) (ik ihash sv : String)
     (schema : Option Schema) (p : Payload) (st2 st : RunSt) (log : Log)
     (h : run now hn f (logPhase strict ik ihash sv schema p) st2 = (.ok log, st)) :
     Appended now ik ihash sv st2 st log ∧ log.payload = p := by
@@ -109,7 +109,7 @@ theorem run_logPhase_ok (now : Time) (hn : String) (f : Option Fault) (strict : 
     · rw [if_neg hb] at h
       exact run_insertLog_ok now hn f ik ihash sv p st2 st log h
 
-theorem run_runLog_ok (now : Time) (hn : String) (f : Option Fault) (strict : Bool) (kind : OpKind)
+theorem run_runLog_ok (now : Time) (hn : String) (f : Faults) (strict : Bool) (kind : OpKind)
     (ik ihash sv : String) (n : Nat) (st0 st : RunSt) (log : Log)
     (h : run now hn f (runLog strict kind ik ihash sv n) st0 = (.ok log, st)) :
     Appended now ik ihash sv st0 st log := by
